@@ -3,7 +3,7 @@ from engine import *
 from facts import strip_generics, callee_of
 import sym
 
-CONFIGS_QUICK = ["F_all"]
+CONFIGS_QUICK = ["F_all", "F_def"]  # every configuration whose cfg-gated code the property depends on
 CONFIGS_THOROUGH = ["F_all", "F_def"]
 TECHNIQUE = 'static analysis: effect pairing (scope push/pop) across the NsReader API on MIR paths, decision tables of the resolver, compile-fail witnesses (no DerefMut)'
 EXPLANATION = (
@@ -255,6 +255,32 @@ def r3_resolver(ctx):
                 if st and st[0][3][0] == "pl" or (st and has_subterm(st[0][3], lambda s: s[0] == "bin" and s[1].startswith("Sub") and s[3] == ("c", "i32", 1))):
                     dec_first = True
             ctx.ob("R3", "pop:level-1", dec_first, "pop decrements nesting_level by one", config=cfg)
+
+            def step_of(p, op):
+                st = [e for e in p if e[0] == "store" and ends_with_fields(e[2], "nesting_level")]
+                if len(st) != 1:
+                    return "%d stores" % len(st)
+                v = strip_wrappers(st[0][3])
+                if v[0] == "bin" and v[1] == op and ends_with_fields(strip_wrappers(v[2]), "nesting_level") and strip_wrappers(v[3])[0] == "c":
+                    return strip_wrappers(v[3])[2]
+                return sym.show(v, 2)
+            steps = {step_of(p, "Sub") for p in ctx.paths(pb) if ends(p) == "ret"}
+            ctx.ob("R3", "pop:step", steps == {1}, "every path of pop() lowers nesting_level by exactly 1 (push raises it by exactly 1): %s" % sorted(steps, key=str), config=cfg)
+            # both outcomes of the search drop every binding above the new level
+            arms = {}
+            for p in ctx.paths(pb):
+                if ends(p) != "ret":
+                    continue
+                d = decision_on(p, lambda t: t[0] == "discr" and call_is(t[1], "rposition"))
+                cs = [(sym.short(c[2]).split("::")[-1], c) for c in calls(p) if name_is(c[2], "clear", "truncate", "drain", "retain") and ends_with_fields(strip_wrappers(c[3][0]), "bindings")]
+                if d == 0:
+                    arms["none-valid"] = any(n == "clear" or (n == "truncate" and strip_wrappers(c[3][1]) == ("c", "usize", 0)) for n, c in cs)
+                elif d == 1:
+                    arms["some-valid"] = any(n == "truncate" and has_subterm(c[3][1], lambda s2: s2[0] == "pl" and call_is(s2[1], "rposition")) for n, c in cs)
+                else:
+                    arms["undecided"] = any(n == "retain" for n, c in cs)
+            ctx.ob("R3", "pop:drops-bindings", bool(arms) and all(arms.values()) and ("undecided" in arms or set(arms) == {"none-valid", "some-valid"}),
+                   "when no binding is valid any more all are cleared, otherwise the list is truncated after the last valid one: %s" % arms, config=cfg)
             pc = F.closure("quick_xml::name::NamespaceResolver::pop::{closure#0}")
             ok = False
             if pc is not None:
@@ -298,6 +324,8 @@ def r3_resolver(ctx):
                         errs.setdefault(rv[1], 0)
                         errs[rv[1]] += 1
             ctx.ob("R3", "push:level-first", bump_first, "nesting_level += 1 precedes every binding", config=cfg)
+            psteps = {step_of(p, "Add") for p in paths if ends(p) in ("ret", "loop")} if pb is not None else set()
+            ctx.ob("R3", "push:step", psteps == {1}, "every path of push() raises nesting_level by exactly 1: %s" % sorted(psteps, key=str)[:4], config=cfg)
             ctx.ob("R3", "push:entry-level", entries_level_ok and n_entries >= 2, "new entries carry the new nesting level (entries on paths: %d)" % n_entries, config=cfg)
             ctx.ob("R3", "push:reserved-errors", set(errs) == {"InvalidXmlPrefixBind", "InvalidXmlnsPrefixBind", "InvalidPrefixForXml", "InvalidPrefixForXmlns"},
                    "the four reserved prefix/namespace errors are raised: %s" % sorted(errs), config=cfg)
